@@ -168,6 +168,14 @@ theorem resume_monotone (W : World) (s₀ : Sys) (hi : SysInv W s₀) (steps : L
     Ascending (restarts W.ver W.ids (runSteps W s₀ steps).ns ks) :=
   restarts_ascending ks (consistent_of_inv W _ (runSteps_inv steps hi) hm) hp
 
+/-- ... and with a root checkpoint no hypothesis on the start is left: from every reachable state
+    every chain of restarts resumes, and never earlier than the restart before it. -/
+theorem resume_monotone_rooted (W : World) (s₀ : Sys) (hi : SysInv W s₀) (steps : List Step)
+    (hm : ∀ i j, i ≤ j → W.e i ≤ W.e j) (root : Bytes × Int × Nat) (hroot : s₀.ns.root = some root)
+    (ks : List Nat) :
+    Ascending (restarts W.ver W.ids (runSteps W s₀ steps).ns ks) :=
+  resume_monotone W s₀ hi steps hm (start_always_resumes W s₀ steps root hroot) ks
+
 /-- the same for any namespace state whose stored offsets follow one monotone numbering -/
 theorem resume_monotone_of_consistent (W : World) (ns : NS) (hc : Consistent W ns)
     (hp : IsPoint (startFrontier W.ver ns W.ids).1) (ks : List Nat) :
